@@ -27,7 +27,7 @@ Lemma orch_facts :
   /\ worker_catches = "Exception" /\ worker_error_result_empty = true
   /\ extract_catches = "Exception" /\ extract_error_result_empty = true
   /\ check_reraises = ["ValueError"]
-  /\ dir_parallel_collects_then_lint_files_parallel = true
+  /\ dir_parallel_collects_then_lint_files_parallel = true /\ parent_language_like_lint_file = true
   /\ cli_dispatch = [("files", "lint_files_parallel", "lint_files"); ("dir", "lint_directory_parallel", "lint_directory")].
 Proof. repeat split; reflexivity. Qed.
 
